@@ -570,12 +570,21 @@ def encJwkOne (P : Prims) (jwe : Json) (rcp : Option Json) (jwk cek : Json) (rnd
 
 /-! ### key management: unwrapping -/
 
+/-- `no_encrypted_key(rcp)` (lib/openssl/misc.c): direct encryption and direct key agreement have no encrypted key —
+    the member is absent or the empty string (RFC 7516 5.2 step 10) -/
+def noEncryptedKey (rcp : Json) : Bool :=
+  match rcp.get? "encrypted_key" with
+  | none => true
+  | some (.str s) => s.isEmpty
+  | some _ => false
+
 /-- `wrap.unw` per family: the CEK object with "k" set -/
 def unw (P : Prims) : Nat → String → Json → Json → Json → Json → Bs → Option Json
   | 0, _, _, _, _, _, _ => none
   | fuel + 1, name, jwe, rcp, jwk, cek, rnd =>
     match wrapFamily name, cek with
     | some .dir, .obj c =>
+      if !noEncryptedKey rcp then none else
       (match jwk with
        | .obj k => some (.obj (updateKV c k))
        | _ => none)
@@ -618,7 +627,9 @@ def unw (P : Prims) : Nat → String → Json → Json → Json → Json → Bs 
       (ecdhesDerive P name kw dklFix hdr cek exc).bind fun der =>
         (match kw with
          | some kwName => unw P fuel kwName jwe rcp der cek []
-         | none => (match der with | .obj dkv => some (.obj (updateKV c dkv)) | _ => none))
+         | none =>
+           if !noEncryptedKey rcp then none else
+           (match der with | .obj dkv => some (.obj (updateKV c dkv)) | _ => none))
     | some (.rsa oaep), .obj c =>
       (match jwk.getStr? "kty", rsaKeyOf jwk with
        | some "RSA", some key =>
